@@ -88,12 +88,11 @@ func c31Run(r *core.Run, p *core.Prog, rel, name string, work []string) {
 		}
 		if rs, ok := n.(*ast.ReturnStmt); ok {
 			tm := false
-			core.Walk(rs, false, func(x ast.Node) bool {
-				if id, ok := x.(*ast.Ident); ok && id.Name == "StatusTooManyRequests" {
+			for _, res := range rs.Results {
+				if mentionsNameDeep(p, info, f.Decl.Body, res, "StatusTooManyRequests", 0) {
 					tm = true
 				}
-				return true
-			})
+			}
 			if tm {
 				out = append(out, ev{label: "return-too-many"})
 			}
@@ -189,21 +188,55 @@ func c31Run(r *core.Run, p *core.Prog, rel, name string, work []string) {
 	ci := cs.Info()
 	fSem := p.FieldObj(rel, "QueryRunner", "sem")
 	okTry, okNil := false, false
-	core.Walk(cs.Decl.Body, false, func(x ast.Node) bool {
-		if rs, ok := x.(*ast.ReturnStmt); ok && len(rs.Results) == 1 {
-			if c, ok := rs.Results[0].(*ast.CallExpr); ok {
-				if rx, m := core.MethodCall(ci, c); m == "TryAddFor" && core.SelField(ci, rx) == fSem {
-					okTry = true
+	{
+		cg := core.GraphOf(cs)
+		ccl := func(n ast.Node, cond *bool) []ev {
+			var out []ev
+			if cond != nil {
+				if x, y, eq, ok := eqTest(n.(ast.Expr), *cond); ok && core.SelField(ci, x) == fSem && core.IsNil(ci, y) {
+					out = append(out, ev{label: map[bool]string{true: "sem-nil", false: "sem-set"}[eq]})
 				}
 			}
-		}
-		if ifs, ok := x.(*ast.IfStmt); ok {
-			if b, ok := core.BinOp(ifs.Cond, token.EQL); ok && core.SelField(ci, b.X) == fSem && core.IsNil(ci, b.Y) {
-				okNil = true
+			if rs, ok := n.(*ast.ReturnStmt); ok && len(rs.Results) >= 1 {
+				l := "ret-other"
+				if c, ok := ast.Unparen(rs.Results[0]).(*ast.CallExpr); ok {
+					if rx, m := core.MethodCall(ci, c); m == "TryAddFor" && core.SelField(ci, rx) == fSem {
+						l = "ret-try"
+					}
+				}
+				out = append(out, ev{label: l})
 			}
+			return out
 		}
-		return true
-	})
+		if ts, ok := traces(cs, cg, ccl, 2000); ok {
+			nTry, nNil := 0, 0
+			okTry, okNil = true, true
+			for _, t := range ts {
+				if t.has("sem-nil") && t.has("sem-set") {
+					continue
+				}
+				switch {
+				case t.has("sem-set"):
+					nTry++
+					if !t.has("ret-try") {
+						okTry = false // a configured limit is not applied
+					}
+				case t.has("sem-nil"):
+					nNil++
+					if t.has("ret-try") {
+						okNil = false
+					}
+				default:
+					if t.has("ret-try") {
+						okNil = false // TryAddFor on a possibly nil semaphore
+					} else {
+						okTry = false // returns without consulting the semaphore
+					}
+				}
+			}
+			okTry, okNil = okTry && nTry > 0, okNil && nNil > 0
+		}
+	}
 	r.Check(rule, short+".checkSemaphore:uses-own-semaphore", p.Rel(cs.Decl.Pos()), okTry && okNil && fSem != nil, "checkSemaphore must return sem.TryAddFor(timeout) of the runner's semaphore and be a no-op only when none is configured")
 	// who may call the work functions
 	for _, w := range work {
